@@ -50,7 +50,26 @@ class C01(Prop):
         rng.shuffle(nodes)
         return {"program": [{"name": "g0", "nodes": nodes, "bound": []}], "values": [["x", rng.randint(0, 4)]]}
 
+    @staticmethod
+    def _nested_bound_outside_selection(rng: random.Random) -> dict:
+        """The default selection names outputs of plain top-level nodes only; a nested graph whose one unsupplied input is BOUND INSIDE it is not
+        needed for the selection, yet it is satisfiable and still runs exactly once (a selection narrows what is returned, not what runs)."""
+        inner = {"name": "inner", "nodes": [{"name": "f", "kind": "fn", "params": [["k", None], ["x", None]], "dataOuts": ["o"], "body": {"b": "tag", "t": "f"}}],
+                 "bound": [["k", rng.randint(1, 9)]]}
+        ren = [["k", "kk"]] if rng.random() < 0.4 else []
+        top = [{"name": "n1", "kind": "fn", "params": [["x", None]], "dataOuts": ["v1"], "body": {"b": "sum", "k": 1}},
+               {"name": "w", "kind": "graph", "inner": 0, "inRen": ren, "outRen": []},
+               {"name": "n2", "kind": "fn", "params": [["v1", None]], "dataOuts": ["v2"], "body": {"b": "tag", "t": "n2"}}]
+        if rng.random() < 0.5:
+            top.append({"name": "n3", "kind": "fn", "params": [["o", None]], "dataOuts": ["v3"], "body": {"b": "tag", "t": "n3"}})
+        rng.shuffle(top)
+        return {"program": [inner, {"name": "g1", "nodes": top, "bound": [], "selected": rng.choice([["v1"], ["v2"], ["v1", "v2"]])}], "values": [["x", rng.randint(0, 4)]]}
+
     def cases(self, rng: random.Random, tier: str) -> Iterable[dict]:
+        for _ in range(4):
+            c = self._nested_bound_outside_selection(rng)
+            for runner in ("sync", "async"):
+                yield {"program": c["program"], "values": c["values"], "runner": runner, "late_renames": rng.random() < 0.5}
         forced_eq = 4
         while True:
             if forced_eq or rng.random() < 0.04:
